@@ -15,22 +15,21 @@ from .. import tlc
 
 LEVEL = "model_checking"
 
-FNS = ["is_ccw_polygon", "is_ccw_polyline", "point_in_polygon", "point_in_polyhedron", "half_space",
+FNS = ["is_ccw_polygon", "is_ccw_polyline", "point_in_polygon", "point_in_cell", "point_in_polyhedron", "half_space",
        "points_are_planar", "points_are_planar_normal", "points_are_collinear", "sort_point_pairs",
        "sort_multiple_point_pairs", "sort_points_on_line", "sort_point_plane", "sort_triangle_edges"]
-CLAUSES = ["CcwPolygon", "CcwPolyline", "PolygonAgree", "PolyhedronAgree", "PolyhedronAgreeSupportPlane",
-           "HalfSpaceAgree", "PlanarAgree", "PlanarNormalAgree", "CollinearAgree", "CollinearAgreeDupRef",
+CLAUSES = ["CcwPolygon", "CcwPolyline", "PolygonAgree", "CellAgree", "PolyhedronAgree", "PolyhedronAgreeSupportPlane",
+           "HalfSpaceAgree", "PlanarAgree", "PlanarNormalAgree", "CollinearAgree",
            "PairSortValid", "MultiPairSortValid", "LineSortValid", "PlaneSortValid", "TriSortValid"]
-VECTORISED = {"is_ccw_polyline", "point_in_polygon", "point_in_polyhedron", "half_space"}
+VECTORISED = {"is_ccw_polyline", "point_in_polygon", "point_in_cell", "point_in_polyhedron", "half_space"}
 
 # known-finding recognisers: the class is decided by TLC (the clause name is the structural class)
 MATCHERS = {
-    # interior/exterior point off the surface but in the supporting plane of a face: reported outside
+    # INTERIOR point, off the surface, but in the supporting plane of a face: reported outside (the clause is evaluated
+    # only for such points; out False + clause false = the exact answer is inside).  An exterior point reported inside,
+    # an exception, or any point outside all supporting planes is NOT matched.
     "pih_support_plane": lambda r: r["clause"] == "PolyhedronAgreeSupportPlane" and r["fn"] == "point_in_polyhedron"
-    and r["ok"] and r["out"] is False,
-    # first two points coincide: every set is reported collinear
-    "collinear_dup_ref": lambda r: r["clause"] == "CollinearAgreeDupRef" and r["fn"] == "points_are_collinear"
-    and r["ok"] and r["out"] is True,
+    and r["ok"] is True and r["out"] is False,
 }
 
 
@@ -54,6 +53,11 @@ def call(fn, inp):
     if fn == "point_in_polygon":
         pts = inp["pts"] if "pts" in inp else [inp["p"]]
         return [bool(x) for x in gpc.point_in_polygon(_arr(inp["poly"], den), _arr(pts, den))]
+    if fn == "point_in_cell":  # one call per point; polygon and point in the plane z = 0
+        pts = inp["pts"] if "pts" in inp else [inp["p"]]
+        poly3 = np.vstack([_arr(inp["poly"], den), np.zeros(len(inp["poly"]))])
+        return [bool(gpc.point_in_cell(poly3.copy(), np.array([q[0] / den, q[1] / den, 0.0]), if_make_planar=bool(inp["planar"])))
+                for q in pts]
     if fn == "point_in_polyhedron":
         pts = inp["pts"] if "pts" in inp else [inp["p"]]
         faces = [_arr(f, den) for f in inp["faces"]]
